@@ -18,9 +18,9 @@ from tdda.referencetest.referencetest import ReferenceTest  # noqa: E402
 from tdda.referencetest.checkpandas import PandasComparison, types_match, loosen_type  # noqa: E402
 
 FAMS = ['int64', 'Int64', 'float64', 'float32', 'bool', 'boolean', 'object-str', 'string', 'str', 'category',
-        'datetime64[ns]', 'datetime64[s]', 'object-bool', 'uint8', 'Float64']
+        'datetime64[ns]', 'datetime64[s]', 'object-bool', 'uint8', 'Float64', 'datetime64[ns, UTC]', 'datetime64[us, UTC]']
 LEVELS = [None, 'strict', 'medium', 'permissive']
-DTYPE_NAMES = ['int64', 'int8', 'uint8', 'Int64', 'UInt8', 'float64', 'float32', 'Float64', 'bool', 'boolean', 'object',
+DTYPE_NAMES = ['datetime64[us, UTC]', 'datetime64[ms, Europe/London]', 'int64', 'int8', 'uint8', 'Int64', 'UInt8', 'float64', 'float32', 'Float64', 'bool', 'boolean', 'object',
                'string', 'str', 'category', 'datetime64[ns]', 'datetime64[s]', 'datetime64[ns, UTC]', 'timedelta64[ns]']
 
 
@@ -156,7 +156,8 @@ def mutate(rng, fr, prec=None, force=None):
         alt = {'int64': 'float64', 'Int64': 'int64', 'float64': 'Float64', 'float32': 'float32', 'bool': 'boolean',
                'boolean': 'bool', 'object-str': 'string', 'string': 'object-str', 'str': 'object-str',
                'category': 'object-str', 'datetime64[ns]': 'datetime64[s]', 'datetime64[s]': 'datetime64[ns]',
-               'object-bool': 'bool', 'uint8': 'int64', 'Float64': 'float64'}[c['fam']]
+               'object-bool': 'bool', 'uint8': 'int64', 'Float64': 'float64',
+               'datetime64[ns, UTC]': 'datetime64[us, UTC]', 'datetime64[us, UTC]': 'datetime64[ns, UTC]'}[c['fam']]
         if any(v is None for v in c['cells']) and alt not in cx.NULLABLE:
             return g, 'none', None
         if alt == 'datetime64[s]':
